@@ -45,6 +45,8 @@ type VerifProvider struct {
 	Wanted              bool
 	Cluster             int32
 	Synthetic           bool
+	Uses                []int32 // ids of the providers this one depends on (includeWorkingData.uses, in order)
+	UsedBy              []int32 // ids of the providers recorded as depending on this one (includeWorkingData.usedBy)
 	Loose               []reflect.Type
 	MustConsume         []reflect.Type
 	ConsumptionOptional []reflect.Type
@@ -176,6 +178,12 @@ func verifProvider(fm *provider) VerifProvider {
 	}
 	if fm.cannotInclude != nil {
 		vp.CannotInclude = fm.cannotInclude.Error()
+	}
+	for _, dep := range fm.d.uses {
+		vp.Uses = append(vp.Uses, dep.id)
+	}
+	for _, dep := range fm.d.usedBy {
+		vp.UsedBy = append(vp.UsedBy, dep.id)
 	}
 	for i := range fm.flows {
 		vp.Flows[i] = verifTypes(fm.flows[i])
